@@ -519,7 +519,10 @@ public:
     RunStats rs = run_end();
 
     std::string vclass, message;
-    if (!finished && rs.inconclusive) {
+    if (L.failed) {
+      vclass = L.violation.vclass;
+      message = L.violation.message;
+    } else if (!finished && rs.inconclusive) {
       out.notes.push_back("run abandoned as inconclusive: still progressing "
                           "after the total point cap (a packet travelling "
                           "almost parallel to periodic walls)");
